@@ -9,7 +9,7 @@ def jobs(tier):
     import sys
     import ctparse.ctparse  # noqa
     C = sys.modules["ctparse.ctparse"]
-    nw, nt, ns, nti = (2, 3, 3, 2) if tier == "quick" else (3, 4, 5, 3)
+    nw, nt, ns, nti = (2, 3, 3, 2) if tier == "quick" else (3, 3, 4, 2)
     return [Job("C10.SUBJECT+LABELS", HA, "ob_subject", timeout=3600, path_timeout=120,
                 env={"VQ_NW10": str(nw), "VQ_NT10": str(nt), "VQ_NS10": str(ns), "VQ_NTI10": str(nti)},
                 bounds="texts of 1..2 pieces ({} words incl. a hyphenated one / {} valid hashtags, each followed by one of {} separator strings) with one of {} time expressions at every position; ".format(nw, nt, ns, nti) +
